@@ -211,6 +211,17 @@ NORMALIZE_ALIAS = os.environ.get("PSV_NO_NORMALIZE_ALIAS") is None
 NORMALIZE_LOOPS = os.environ.get("PSV_NO_NORMALIZE_LOOPS") is None
 WALK_INTO_LAMBDAS = os.environ.get("PSV_WALK_LAMBDAS") is not None
 NORMALIZE_FOLD = os.environ.get("PSV_NO_NORMALIZE_FOLD") is None
+NORMALIZE_NEW_LOCALS = os.environ.get("PSV_NO_NORMALIZE_NEW_LOCALS") is None
+_INV = None
+
+
+def INVENTORY():
+    """functions, locals and switch-bearing functions of the pinned tree (psv/inventory.json, tools/gen_inventory.py)"""
+    global _INV
+    if _INV is None:
+        d = json.load(open(os.path.join(VERIF, "psv", "inventory.json")))
+        _INV = {k: set(v) for k, v in d.items()}
+    return _INV
 NORMALIZE_CALLS = os.environ.get("PSV_NO_NORMALIZE_CALLS") is None
 
 
@@ -590,8 +601,46 @@ class Function:
             n["copyOf"] = x
         return m[i]
 
+    _PURE_KINDS = _PATH_KINDS | {"BinaryOperator", "UnaryOperator", "ConditionalOperator", "FloatingLiteral", "CXXNullPtrLiteralExpr", "GNUNullExpr",
+                                 "CXXBoolLiteralExpr", "CXXReinterpretCastExpr", "CXXConstCastExpr", "MaterializeTemporaryExpr", "ExprWithCleanups",
+                                 "UnaryExprOrTypeTraitExpr", "SubstNonTypeTemplateParmExpr", "ConstantExpr"}
+
+    def _pure_names(self, i):
+        """names a side-effect-free expression reads, or None if node i is not side-effect free (built-in operators, casts, subscripts —
+        also std::vector / array_view operator[] and the observers size()/data()/get())."""
+        names = set()
+        for x in self.walk(i):
+            n = self.nodes[x]
+            k = n["k"]
+            if k in ("CXXOperatorCallExpr",) and n.get("opcall") == "[]":
+                continue
+            if k == "CXXMemberCallExpr" and (n.get("callee") or {}).get("name") in ("size", "data", "get", "begin", "end") and len(n["ch"]) == 1:
+                continue
+            if k not in self._PURE_KINDS:
+                return None
+            if k in ("BinaryOperator",) and (n.get("op", "").endswith("=") and n["op"] not in ("==", "!=", "<=", ">=")):
+                return None
+            if k == "UnaryOperator" and n.get("op") in ("++", "--"):
+                return None
+            if k == "DeclRefExpr":
+                if n["decl"].get("kind") in ("Var", "ParmVar"):
+                    names.add(n["decl"]["name"])
+                elif n["decl"].get("kind") == "StaticMember":
+                    if "const" not in (n["decl"].get("type") or n.get("t") or ""):
+                        names.add(n["decl"]["name"])
+                elif n["decl"].get("kind") not in ("EnumConstant", "Function", "CXXMethod", "NonTypeTemplateParm"):
+                    return None
+            elif k == "MemberExpr":
+                names.add(n["member"])
+        return names
+
     def _inline_const_aliases(self):
         pos = None
+        try:
+            known = INVENTORY()["locals"] if NORMALIZE_NEW_LOCALS else None
+        except (OSError, ValueError, KeyError):
+            known = None
+        tag = "%s:%s:" % (os.path.basename(self.file), self.name)
         for i in list(self.walk()):
             n = self.nodes[i]
             if n["k"] != "DeclStmt":
@@ -599,11 +648,36 @@ class Function:
             for d in n.get("decls", []):
                 t = d.get("type", "")
                 ct = d.get("ctype", t)
-                if d.get("dk") != "Var" or not t.startswith("const ") or d.get("init", -1) < 0 or any(c in ct for c in "*&[<"):
+                if d.get("dk") != "Var" or d.get("init", -1) < 0 or d.get("static"):
                     continue
-                names = self._path_names(d["init"])
-                if not names or self.nodes[self.strip(d["init"])]["k"] == "IntegerLiteral":
-                    continue
+                is_new = known is not None and self.file.startswith(REPO) and (tag + d.get("name", "")) not in known
+                if is_new:
+                    # a local that the pinned tree does not have (a later refactoring introduced it): any scalar or pointer with a
+                    # side-effect-free initialiser that is never assigned again and whose address is not taken
+                    if any(c in ct for c in "[<") or ct.endswith("&") or "unique_ptr" in ct:
+                        continue
+                    vid = d["id"]
+                    touched = False
+                    for x in self.walk():
+                        m = self.nodes[x]
+                        tgt = None
+                        if m["k"] in ("BinaryOperator", "CompoundAssignOperator") and m.get("op", "").endswith("=") and m["op"] not in ("==", "!=", "<=", ">="):
+                            tgt = self.strip(m["ch"][0])
+                        elif m["k"] == "UnaryOperator" and m.get("op") in ("++", "--", "&"):
+                            tgt = self.strip(m["ch"][0])
+                        if tgt is not None and self.nodes[tgt]["k"] == "DeclRefExpr" and self.nodes[tgt]["decl"].get("id") == vid and self.nodes[tgt]["decl"].get("kind") == "Var":
+                            touched = True
+                    if touched:
+                        continue
+                    names = self._pure_names(d["init"])
+                    if names is None:
+                        continue
+                else:
+                    if not t.startswith("const ") or any(c in ct for c in "*&[<"):
+                        continue
+                    names = self._path_names(d["init"])
+                    if not names or self.nodes[self.strip(d["init"])]["k"] == "IntegerLiteral":
+                        continue
                 if pos is None:
                     pos = self.node_positions()
                 if i not in pos:
@@ -687,6 +761,14 @@ class Function:
         if left_is(b):
             return b, self.MIRROR[n["op"]], a
         return None
+
+    def seq(self, i):
+        """position of node i in a pre-order walk of the function's current tree (source order; valid after the normal form has copied or
+        moved nodes, when node ids no longer say which comes first)"""
+        if getattr(self, "_seq", None) is None or self._parent is None:
+            self._seq = {x: k for k, x in enumerate(self.walk())}
+            _ = self.parent
+        return self._seq.get(i, 1 << 30)
 
     def ancestors(self, i):
         p = self.parent[i]
@@ -1003,14 +1085,42 @@ class Program:
 
     def _fold_new_helpers(self):
         try:
-            inv = set(json.load(open(os.path.join(VERIF, "psv", "inventory.json"))))
-        except (OSError, ValueError):
+            inv = set(INVENTORY()["functions"])
+        except (OSError, ValueError, KeyError):
             return False
         changed = False
         for unit, fmap in self.variants.items():
             funcs = list(fmap.values())
             new = {g.usr: g for g in funcs if g.file.startswith(REPO) and g.kind == "function" and g.cfg and g.body is not None and g.body >= 0
                    and "%s:%s" % (os.path.basename(g.file), g.name) not in inv and not g.d.get("folded")}
+            lambdas = {g.usr: g for g in funcs if g.file.startswith(REPO) and g.kind == "lambda" and g.name == "operator()" and g.cfg and
+                       g.body is not None and g.body >= 0 and not g.d.get("folded")}
+            try:
+                known_locals = INVENTORY()["locals"]
+            except (OSError, ValueError, KeyError):
+                known_locals = None
+            if not new and not lambdas:
+                continue
+            # calls of a lambda held in a local that the pinned tree does not have: every call site gets its own copy
+            if lambdas and known_locals is not None:
+                for f in funcs:
+                    if not f.file.startswith(REPO) or not f.cfg:
+                        continue
+                    for i in list(f.walk()):
+                        n = f.nodes[i]
+                        cal = n.get("callee")
+                        if not cal or n["k"] != "CXXOperatorCallExpr" or n.get("opcall") != "()" or cal.get("usr") not in lambdas or len(n["ch"]) < 2:
+                            continue
+                        holder = f.strip(n["ch"][1])
+                        if f.nodes[holder]["k"] != "DeclRefExpr" or f.nodes[holder]["decl"].get("kind") != "Var":
+                            continue
+                        if "%s:%s:%s" % (os.path.basename(f.file), f.name, f.nodes[holder]["decl"]["name"]) in known_locals:
+                            continue
+                        try:
+                            if self._fold_one(f, i, lambdas[cal["usr"]]):
+                                changed = True
+                        except (KeyError, IndexError, ValueError):
+                            pass
             if not new:
                 continue
             sites = {}
@@ -1087,8 +1197,16 @@ class Program:
         ret_expr = g.ch(rets[0])[0] if rets and g.ch(rets[0]) else -1
         if (lhs_node is not None or decl_target is not None) and ret_expr < 0:
             return False
-        args = [a for a in f.nodes[ci]["ch"][1:]]
-        if f.nodes[ci]["k"] != "CallExpr" or len(args) != len(g.params) or any(a < 0 for a in args):
+        is_lambda = g.kind == "lambda"
+        if is_lambda:
+            args = [a for a in f.nodes[ci]["ch"][2:]]
+            if f.nodes[ci]["k"] != "CXXOperatorCallExpr":
+                return False
+        else:
+            args = [a for a in f.nodes[ci]["ch"][1:]]
+            if f.nodes[ci]["k"] != "CallExpr":
+                return False
+        if len(args) != len(g.params) or any(a < 0 for a in args):
             return False
         # --- parameters: read-only ones are replaced by the argument; one that the helper modifies must be the variable that also
         #     receives the result (`x = helper(.., x, ..)` with `return x_param;`)
@@ -1133,6 +1251,23 @@ class Program:
         js = sorted(j for _, j in where)
         if js != list(range(js[0], js[-1] + 1)):
             return False
+        # --- a lambda's captured variables are the caller's (matched by name); its own parameters and locals keep separate identities
+        own_ids = {p_["id"] for p_ in g.params} | {d["id"] for n in g.nodes if n["k"] == "DeclStmt" for d in n.get("decls", []) if "id" in d}
+        byname = {}
+        if is_lambda:
+            byname = {p_["name"]: dict(kind="ParmVar", name=p_["name"], id=p_["id"], type=p_.get("type", "")) for p_ in f.params}
+            for n in f.nodes:
+                if n["k"] == "DeclRefExpr" and n["decl"].get("kind") in ("Var", "ParmVar"):
+                    byname.setdefault(n["decl"]["name"], n["decl"])
+                elif n["k"] == "DeclStmt":
+                    for dd in n.get("decls", []):
+                        if dd.get("dk") == "Var":
+                            byname.setdefault(dd["name"], dict(kind="Var", name=dd["name"], id=dd["id"], type=dd.get("type", "")))
+            for n in g.nodes:
+                if n["k"] == "DeclRefExpr" and n["decl"].get("kind") in ("Var", "ParmVar") and n["decl"].get("id") not in own_ids and n["decl"].get("name") not in byname:
+                    return False
+            if any(n["k"] == "CXXThisExpr" for n in g.nodes) and f.cls is None:
+                return False
         # --- copy the helper's nodes
         off = len(f.nodes)
         idshift = 100000 + off
@@ -1147,7 +1282,10 @@ class Program:
                                     **({"id": d["id"] + idshift} if "id" in d else {}),
                                     **({"extents": [e + off if e >= 0 else e for e in d["extents"]]} if d.get("extents") else {})) for d in nn["decls"]]
             if nn["k"] == "DeclRefExpr" and nn["decl"].get("kind") in ("Var", "ParmVar"):
-                nn["decl"] = dict(nn["decl"], id=nn["decl"]["id"] + idshift)
+                if is_lambda and nn["decl"].get("id") not in own_ids and nn["decl"].get("name") in byname:
+                    nn["decl"] = dict(byname[nn["decl"]["name"]])          # a captured variable is the caller's variable
+                else:
+                    nn["decl"] = dict(nn["decl"], id=nn["decl"]["id"] + idshift)
             nn["origLoc"] = n.get("loc")
             nn["loc"] = f.nodes[S]["loc"]
             nn["f"] = f.nodes[S].get("f")
@@ -1166,6 +1304,7 @@ class Program:
                     nn["argOf"] = g.params[k]["name"]
                     nn["ch"] = [args[k] if k not in used else f._copy_subtree(args[k])]
                     used.add(k)
+        f.nodes[g.body + off]["ch"] = []          # the copy of the helper's own body statement is not part of the tree (its statements get a new parent)
         body_kids = [k + off for k in kids if not (rets and k == rets[0])]
         extra_elems = []
         if ret_expr >= 0 and not (alias and g.nodes[g.strip(ret_expr)]["decl"].get("id") in alias if g.nodes[g.strip(ret_expr)]["k"] == "DeclRefExpr" else False):
@@ -1178,13 +1317,17 @@ class Program:
                 decl_target["init"] = ret_expr + off
                 body_kids.append(S)
                 extra_elems.append(S)
-        f.nodes.append(dict(k="CompoundStmt", ch=body_kids, loc=f.nodes[S]["loc"], f=f.nodes[S].get("f"), synthetic=True, foldedFrom=g.name))
-        C_ = len(f.nodes) - 1
         spn = f.nodes[SP]
-        spn["ch"] = [C_ if x == S else x for x in spn["ch"]]
-        for key in self._KEYED:
-            if spn.get(key) == S:
-                spn[key] = C_
+        if spn["k"] == "CompoundStmt":
+            # the helper's statements take the place of the call statement in the enclosing block
+            spn["ch"] = [y for x in spn["ch"] for y in (body_kids if x == S else [x])]
+        else:
+            f.nodes.append(dict(k="CompoundStmt", ch=body_kids, loc=f.nodes[S]["loc"], f=f.nodes[S].get("f"), synthetic=True, foldedFrom=g.name))
+            C_ = len(f.nodes) - 1
+            spn["ch"] = [C_ if x == S else x for x in spn["ch"]]
+            for key in self._KEYED:
+                if spn.get(key) == S:
+                    spn[key] = C_
         # --- splice the CFGs
         blocks = f.cfg["blocks"]
         B = next(b for b in blocks if b["id"] == bid)
@@ -1877,6 +2020,40 @@ def eq_norm(d):
     if ks and ks[-1][1] < 0:
         return -d
     return d
+
+
+def printf_format(f, call, fmt_index=2):
+    """format of a snprintf-like call with its literal string arguments folded in: snprintf(buf, n, "%s%d", "ORDER", i) reads "ORDER%d".
+    Returns (format text or None, [argument nodes that remain, in order])."""
+    a = f.args(call)
+    if len(a) <= fmt_index:
+        return None, []
+    fm = f.strip(a[fmt_index])
+    if f.k(fm) != "StringLiteral":
+        return None, []
+    text = f.nodes[fm]["v"]
+    rest = list(a[fmt_index + 1:])
+    out, remaining = "", []
+    j = 0
+    import re as _re
+    pos_ = 0
+    for m in _re.finditer(r"%(%|[-+ #0]*\d*(?:\.\d+)?(?:hh|h|ll|l|z|j|t|L)?[diouxXeEfgGcsp])", text):
+        out += text[pos_:m.start()]
+        pos_ = m.end()
+        spec = m.group(0)
+        if spec == "%%":
+            out += "%%"
+            continue
+        arg = rest[j] if j < len(rest) else -1
+        j += 1
+        if spec.endswith("s") and arg >= 0 and f.k(f.strip(arg)) == "StringLiteral":
+            out += f.nodes[f.strip(arg)]["v"]
+        else:
+            out += spec
+            if arg >= 0:
+                remaining.append(arg)
+    out += text[pos_:]
+    return out, remaining
 
 
 def cond_leaves(f, c):
